@@ -674,7 +674,21 @@ class Engine:
     def __init__(self, prop_id, tier, harnesses, keep=False, update_hints=False, only=None):
         self.prop_id = prop_id
         self.tier = tier
-        self.harnesses = [h for h in harnesses if tier in h.tiers and (not only or re.search(only, h.name))]
+        # harness/budget.json: harnesses that did not reach a verdict within the build budget on the unchanged
+        # tree ('skip': outside the claim, reason recorded) or only fit the thorough tier ('thorough_only')
+        bp = os.path.join(VERIF, 'harness', 'budget.json')
+        self.budget = json.load(open(bp)) if os.path.exists(bp) else {'skip': {}, 'thorough_only': []}
+        def _ok(h):
+            if h.name in self.budget.get('skip', {}) and not os.environ.get('VERIF_NOSKIP'):
+                return False
+            if tier == 'quick' and h.name in self.budget.get('thorough_only', []):
+                return False
+            if tier == 'thorough' and 'quick' not in h.tiers and not os.environ.get('VERIF_NOSKIP') \
+                    and h.name not in self.budget.get('thorough_validated', []):
+                return False      # thorough-only harness not yet seen to conclude on the unchanged tree
+            return tier in h.tiers and (not only or re.search(only, h.name))
+        self.harnesses = [h for h in harnesses if _ok(h)]
+        self.skipped = {h.name: self.budget['skip'][h.name] for h in harnesses if h.name in self.budget.get('skip', {})}
         self.stage = Stage(keep=keep)
         self.update_hints = update_hints
         self.kf = self._load_kf()
@@ -786,14 +800,16 @@ class Engine:
             if 'symbolTable' in x:
                 st = x['symbolTable']
         per_unit, local_statics = {}, []
+        build['snapshot_bounds'] = {}
         unit_paths = {os.path.realpath(p): (p, fl) for (p, fl) in build['units']}
         for n, sy in st.items():
             if not sy.get('isStaticLifetime') or sy.get('isType') or sy['type'].get('id') == 'code':
                 continue
             if n.startswith('__CPROVER') or sy.get('isExtern') or '$' in n:
                 continue
-            f = sy.get('location', {}).get('namedSub', {}).get('file', {}).get('id', '')
-            wd = sy.get('location', {}).get('namedSub', {}).get('working_directory', {}).get('id', '')
+            loc = sy.get('location', {}) or {}
+            f = loc.get('file', '') or loc.get('namedSub', {}).get('file', {}).get('id', '')
+            wd = loc.get('workingDirectory', '') or loc.get('namedSub', {}).get('working_directory', {}).get('id', '')
             fp_ = os.path.realpath(f if os.path.isabs(f) else os.path.join(wd, f))
             if fp_ not in unit_paths or fp_.startswith(VERIF):
                 continue
@@ -819,14 +835,21 @@ class Engine:
             w = os.path.join(wdir, 'wrap_%d_%s' % (idx, os.path.basename(path)))
             with open(w, 'w') as f:
                 f.write('#include "%s"\n#include <string.h>\n' % path)
+                f.write('#ifdef VERIF_REPLAY\n#include <stdio.h>\n#include <stdlib.h>\n#undef __CPROVER_assert\n'
+                        '#define __CPROVER_assert(c, m) do { if(!(c)) { fprintf(stderr, "REPLAY: CHECK FAILED: %s\\n", m); abort(); } } while(0)\n#endif\n')
                 f.write('void %s(int mode) {\n' % fn)
                 for nm in names:
-                    f.write('  { static unsigned char snap[sizeof(%s)];\n' % nm)
-                    f.write('    if(mode == 0) memcpy(snap, &%s, sizeof(%s));\n' % (nm, nm))
-                    f.write('    else __CPROVER_assert(memcmp(snap, &%s, sizeof(%s)) == 0, "static object %s (%s) is not modified by codec calls"); }\n'
-                            % (nm, nm, nm, os.path.basename(path)))
+                    # explicit constant-bound byte loops (CBMC's memcmp/memcpy models would need one unwinding per byte
+                    # under a discovered bound; these loops get a generous fixed bound and stop at sizeof on their own)
+                    f.write('  { static unsigned char snap[sizeof(%s)]; const unsigned char *p = (const unsigned char *)&%s;\n' % (nm, nm))
+                    f.write('    if(mode == 0) { for(unsigned long i = 0; i < sizeof(%s); i++) snap[i] = p[i]; }\n' % nm)
+                    f.write('    else { int same = 1; for(unsigned long i = 0; i < sizeof(%s); i++) if(snap[i] != p[i]) same = 0;\n' % nm)
+                    f.write('      __CPROVER_assert(same, "static object %s (%s) is not modified by codec calls"); } }\n'
+                            % (nm, os.path.basename(path)))
                 f.write('}\n')
             calls.append(fn)
+            for j in range(2 * len(names)):
+                build['snapshot_bounds']['%s.%d' % (fn, j)] = 4096
             objs.append(self.stage.obj(w, GOTOCC_BASE + ['-I', os.path.dirname(path)] + fl))
         allc = os.path.join(wdir, 'snap_all.c')
         with open(allc, 'w') as f:
@@ -836,6 +859,20 @@ class Engine:
             f.write('void verif_compare_all(void) {\n' + ''.join('  %s(1);\n' % c for c in calls) + '}\n')
             f.write('int verif_snapshot_count = %d;\n' % self.snapshot_info['objects'])
         objs.append(self.stage.obj(allc, GOTOCC_BASE))
+        # native replay links the same wrappers instead of the plain units
+        wrapped = []
+        i2 = 0
+        for (path, fl) in build['units']:
+            names = sorted(set(per_unit.get(os.path.realpath(path), [])))
+            if names:
+                i2 += 1
+                wrapped.append((os.path.join(wdir, 'wrap_%d_%s' % (i2, os.path.basename(path))), ['-I', os.path.dirname(path)] + fl))
+            else:
+                wrapped.append((path, fl))
+        wrapped.append((allc, []))
+        build['units'] = wrapped
+        if build.get('model_files') is None:
+            build['model_files'] = {}
         return objs
 
     # -- one variant -----------------------------------------------------
@@ -850,11 +887,13 @@ class Engine:
             res.restrict_sites = len(restr)
             hint = self.hints.get(h.name + ('' if variant == 'main' else ''), {})
             bounds = dict(hint.get('unwindset', {}))
+            if h.snapshot:
+                bounds.update(build.get('snapshot_bounds', {}))
             objbits = max(h.objbits, hint.get('objbits', 0))
             qcap = h.timeout or (240 if self.tier == 'quick' else 1800)
             dcap = h.maxdeepen or (600 if self.tier == 'quick' else 2400)
-            if not bounds and not hint.get('nodeepen'):
-                bounds = dict(self.pool)
+            if not hint.get('unwindset') and not hint.get('nodeepen'):
+                bounds = dict(self.pool, **bounds)
                 ok, info = deepen(h, gb, bounds, time.time() + dcap, objbits, logf)
                 if not ok:
                     res.status = 'inconclusive'
